@@ -33,9 +33,11 @@ class Gen:
         self.rng, self.flavour, self.n = rng, flavour, 0
         self.written = flavour == "written"
 
-    def name(self):
+    def name(self, member=False):
+        """unique names; a member (child) name may contain dots: 'Parent.Child' splits at the FIRST dot"""
         self.n += 1
-        return "%s %d" % (self.rng.choice(WORDS), self.n)
+        w = self.rng.choice(WORDS + (["rev 1.2", "a.b", ".x"] if member else []))
+        return "%s %d" % (w, self.n)
 
     def sp_unsigned(self):
         return self.rng.choice(["dec", "hex", "HEX", "hexl", "hex4"])
@@ -74,7 +76,7 @@ class Gen:
     def vdesc(self, sub, dt=None, name=None):
         r = self.rng
         dt = r.choice(ALL_TYPES) if dt is None else dt
-        v = {"name": self.name() if name is None else name, "sub": sub, "dt": dt}
+        v = {"name": self.name(member=sub is not None and name is None) if name is None else name, "sub": sub, "dt": dt}
         acc = r.choice(ACCESS)
         if self.written:
             v["dt_sp"] = r.choice(["hex4", "hex", "dec", "hexl"])
@@ -143,9 +145,9 @@ class Gen:
             o["n"] = r.choice([1, 2, 3, 4, 8, 20, r.randrange(1, 21)])
             mode = r.choice(["none", "full", "sparse"])
             if mode == "full":
-                o["names"] = {str(i): self.name() for i in range(1, o["n"] + 1)}
+                o["names"] = {str(i): self.name(member=True) for i in range(1, o["n"] + 1)}
             elif mode == "sparse":
-                o["names"] = {str(i): self.name() for i in range(1, o["n"] + 1) if r.random() < 0.5}
+                o["names"] = {str(i): self.name(member=True) for i in range(1, o["n"] + 1) if r.random() < 0.5}
             else:
                 o["names"] = None
         return o
